@@ -33,8 +33,8 @@ def run(ctx):
     sub.extra = ctx.extra
     _run_as(c12, sub, ctx)
     # R2 / R3 — reuse C13
-    sub2 = _Only(ctx, "C06-R2", ("key-constant", "key-source", "key-compare", "key-text", "value-parse", "value-text", "prefix-template", "prefix-key",
-                                 "separators", "kind-new", "new-only-if-none", "G9|", "G15|", "anchor|"))
+    sub2 = _Only(ctx, "C06-R2", ("key-constant", "key-source", "key-compare", "key-text", "value-parse", "value-text", "value-layout", "prefix-template", "prefix-key",
+                                 "separators", "kv-count-complete", "kind-new", "new-only-if-none", "G9|", "G15|", "anchor|"))
     _run_as(c13, sub2, ctx)
     sub3 = _Only(ctx, "C06-R3", ("one-span|", "same-end|", "same-shift|", "shift-span", "shift-paren", "G10|", "G14|", "inner-handles", "target-flag",
                                  "post-target-span", "anchor-after-target", "paren-anchor-only-without-target", "literal-inner"))
